@@ -193,7 +193,11 @@ func Run(r *common.Run) error {
 		}
 		for _, l := range lines {
 			f := strings.Fields(l)
-			if len(f) < 4 || f[0] != "C06" {
+			if len(f) < 3 || f[0] != "C06" || (len(f) < 4 && f[1] != "exp") {
+				continue
+			}
+			if f[1] == "exp" && len(f) >= 3 {
+				runExpect(r, strings.Split(f[2], ","), "replay")
 				continue
 			}
 			switch f[1] {
@@ -230,6 +234,8 @@ func Run(r *common.Run) error {
 	}
 	// the helpers that own the response they wait for, over every reply shape
 	runWraps(r)
+	// the listener's table of expected streams
+	runExpects(r)
 	// schedules generated from the Lean LTS by the driver
 	nGen := 0
 	if bin := findDriver(r.Dir); bin != "" {
